@@ -19,7 +19,7 @@ LastdNext(e) ==
              ELSE IF e.op = "build_at" /\ e.ok /\ Len(e.ids) = Len(e.ds) THEN [x \in RangeOf(e.ids) |-> e.ds[PosOf(e.ids, x)]]
              ELSE lastd
 
-KnownIds == {"C03-KF3", "C03-KF5", "C03-KF7", "C03-KF9", "C03-KF10"}
+KnownIds == {"C03-KF3", "C03-KF7"}
 
 (* the probe event with replaceable judgements for get / size / len answers *)
 ProbeWith(ids, g, c, s, n, G(_, _, _), S(_, _, _), L(_)) ==
